@@ -20,7 +20,7 @@ meta = {
     "demonstration": [n for n in os.listdir(src) if n.endswith(".rs")],
     "needs_to_manifest": notes[:1500],
     "confirmed_by_me": {
-        "how": ("confirm_seed8.sh in the agent's scratch worktree: patch.diff identical to the worktree diff; cargo test --workspace with refactoring+bug (all pre-existing targets ok) and with the refactoring alone (all ok); demo fails with refactoring+bug, passes on the original code and with the refactoring alone" if R in ("8", "9", "11", "14") else
+        "how": ("confirm_seed8.sh in the agent's scratch worktree: patch.diff identical to the worktree diff; cargo test --workspace with refactoring+bug (all pre-existing targets ok) and with the refactoring alone (all ok); demo fails with refactoring+bug, passes on the original code and with the refactoring alone" if R in ("8", "9", "11", "14", "16") else
                 "confirm_seed.sh in the agent's scratch worktree: cargo test --workspace (all pre-existing targets ok), demo with the change (fails), demo after `git checkout -- src proto` (passes), patch.diff identical to the worktree diff"),
         "log_excerpt": res,
     },
